@@ -70,7 +70,6 @@ impl Admin {
     { unimplemented!() }
 }
 // cosmwasm_std::BalanceResponse / cw20::BalanceResponse / cw20::Cw20QueryMsg (dependency types)
-pub struct BalanceResponse { pub amount: Coin }
 pub struct CW20BalanceResponse { pub balance: Uint128 }
 pub enum Cw20QueryMsg { Balance { address: String } }
 pub open spec fn q_token_balance(q: QuerierWrapper, token: AssetInfo, account: Seq<char>) -> Uint128 {
